@@ -171,35 +171,64 @@ def _gen_file(fmt, rng, n, eol='lf', **shape):
 
 
 # ----------------------------------------------------------------------------- programs
-def _resolve(spec, n):
+DTYPES = ['int8', 'int16', 'int32', 'int64', 'intp', 'uint8', 'uint16', 'uint32', 'uint64']
+
+
+def _index_object(spec):
+    """the Python object the user writes between the brackets, in exactly this spelling"""
     import numpy as np
-    a = np.arange(n)
     k = spec[0]
     if k == 'slice':
-        return [int(x) for x in a[slice(spec[1], spec[2], spec[3])]]
-    if k == 'mask':
-        return [int(x) for x in a[np.array(spec[1], dtype=bool)]]
-    if k in ('list', 'array'):
-        return [int(x) for x in a[np.array(spec[1], dtype=int)]]
-    if k == 'single':
-        return [int(a[spec[1]])]
+        return slice(spec[1], spec[2], spec[3])
+    if k == 'mask':                     # boolean ndarray
+        return np.array(spec[1], dtype=bool)
+    if k == 'mask_list':                # plain list of Python bools, e.g. [n.startswith('keep') for n in names]
+        return [bool(x) for x in spec[1]]
+    if k == 'mask_nplist':              # list of np.bool_, e.g. list(mask)
+        return [np.bool_(x) for x in spec[1]]
+    if k == 'list':                     # plain list of Python ints (may be empty)
+        return [int(x) for x in spec[1]]
+    if k == 'list_np':                  # list of NumPy integers
+        return [np.int64(x) for x in spec[1]]
+    if k == 'array':
+        return np.array(spec[1], dtype=int)
+    if k == 'array_dt':
+        return np.array(spec[2], dtype=spec[1])
+    if k == 'single':                   # what t[i] does internally: t[[i]]
+        return [int(spec[1])]
+    if k == 'single_np':
+        return [np.int32(spec[1])]
     raise ValueError(k)
+
+
+def _resolve(spec, n):
+    """NumPy's own reading of this index on n records"""
+    import numpy as np
+    return [int(x) for x in np.arange(n)[_index_object(spec)]]
 
 
 def _gen_index(rng, n):
     r = rng.random()
     if n == 0:
-        return rng.choice([['slice', None, None, None], ['slice', 0, 5, 2], ['mask', []], ['array', []], ['slice', None, None, -1]])
-    if r < 0.25:
+        return rng.choice([['slice', None, None, None], ['slice', 0, 5, 2], ['mask', []], ['array', []], ['slice', None, None, -1],
+                           ['list', []], ['array_dt', 'int32', []]])
+    if r < 0.22:
         ends = [None] + list(range(-n - 1, n + 2))
         return ['slice', rng.choice(ends), rng.choice(ends), rng.choice([None, None, 1, 2, 3, -1, -1, -2])]
     if r < 0.45:
-        return ['mask', [rng.random() < 0.6 for _ in range(n)]]
+        return [rng.choice(['mask', 'mask', 'mask_list', 'mask_list', 'mask_nplist']), [rng.random() < 0.6 for _ in range(n)]]
     if r < 0.85:
-        return [rng.choice(['list', 'array']), [rng.randint(-n, n - 1) for _ in range(rng.choice([1, 2, n, n + 2]))]]
+        ints = [rng.randint(-n, n - 1) for _ in range(rng.choice([1, 2, n, n + 2]))]
+        k = rng.choice(['list', 'list', 'array', 'list_np', 'array_dt'])
+        if k == 'array_dt':
+            dt = rng.choice(DTYPES)
+            if dt.startswith('u'):
+                ints = [i % n for i in ints]
+            return ['array_dt', dt, ints]
+        return [k, ints]
     if r < 0.9:
-        return ['array', []]
-    return ['single', rng.randint(-n, n - 1)]
+        return rng.choice([['array', []], ['list', []]])
+    return [rng.choice(['single', 'single_np']), rng.randint(-n, n - 1)]
 
 
 def _values(rng, fmt, j, kind, n):
@@ -268,22 +297,26 @@ def _mk(file_case, prog):
 
 MENU = [['slice', None, None, None], ['slice', None, None, -1], ['slice', 1, None, None], ['slice', None, -1, None],
         ['slice', None, None, 2], ['slice', 2, 0, -1], ['mask', [True, False, True]], ['mask', [False, True, True]],
-        ['list', [2, 0, 0]], ['list', [1, 1, -1, 0]], ['single', 1], ['single', -1], ['array', []]]
+        ['list', [2, 0, 0]], ['list', [1, 1, -1, 0]], ['single', 1], ['single', -1], ['array', []],
+        ['mask_list', [True, False, True]], ['mask_nplist', [False, True, True]], ['list', []], ['list_np', [2, 0, 0]],
+        ['array_dt', 'uint8', [2, 0, 0]], ['array_dt', 'int16', [1, 1, -1, 0]], ['single_np', -1]]
 
 
 def _menu_for(n):
     out = []
     for m in MENU:
-        if m[0] == 'mask':
+        if m[0] in ('mask', 'mask_list', 'mask_nplist'):
             if n == 0:
                 continue
-            m = ['mask', (m[1] * n)[:n]]
-        if m[0] in ('list', 'single') and n == 0:
+            m = [m[0], (m[1] * n)[:n]]
+        if m[0] in ('list', 'list_np', 'array_dt', 'single', 'single_np') and n == 0 and m[-1] != []:
             continue
-        if m[0] == 'list':
-            m = ['list', [max(-n, min(n - 1, i)) for i in m[1]]]
-        if m[0] == 'single':
-            m = ['single', max(-n, min(n - 1, m[1]))]
+        if m[0] in ('list', 'list_np'):
+            m = [m[0], [max(-n, min(n - 1, i)) for i in m[1]]]
+        if m[0] == 'array_dt':
+            m = ['array_dt', m[1], [(i % n if m[1].startswith('u') else max(-n, min(n - 1, i))) for i in m[2]]]
+        if m[0] in ('single', 'single_np'):
+            m = [m[0], max(-n, min(n - 1, m[1]))]
         out.append(m)
     return out
 
@@ -477,16 +510,7 @@ def observe(case):
             if k == 'idx':
                 t = ev(p[3], src)
                 spec = p[1]
-                if spec[0] == 'slice':
-                    return t[slice(spec[1], spec[2], spec[3])]
-                if spec[0] == 'mask':
-                    return t[np.array(spec[1], dtype=bool)]
-                if spec[0] == 'list':
-                    return t[list(spec[1])]
-                if spec[0] == 'array':
-                    return t[np.array(spec[1], dtype=int)]
-                if spec[0] == 'single':
-                    return t[[spec[1]]]
+                return t[_index_object(spec)]
             if k == 'cat':
                 return np.concatenate([ev(q, src) for q in p[1]])
             if k == 'touch':
@@ -791,8 +815,12 @@ def _show(p):
         s = p[1]
         if s[0] == 'slice':
             ix = '%s:%s:%s' % tuple('' if x is None else x for x in s[1:4])
-        elif s[0] == 'single':
-            ix = '[%d]' % s[1]
+        elif s[0] in ('single', 'single_np'):
+            ix = '[%s%d]' % ('np.int32 ' if s[0] == 'single_np' else '', s[1])
+        elif s[0] == 'array_dt':
+            ix = 'np.array(%r, %s)' % (s[2], s[1])
+        elif s[0] in ('mask_list', 'mask_nplist', 'list_np', 'array', 'mask'):
+            ix = '%s %r' % (s[0], s[1])
         else:
             ix = repr(s[1])
         return '%s[%s]' % (_show(p[3]), ix)
